@@ -1,4 +1,5 @@
 import BB.Proofs.ErrorHandlingSound
+import BB.Proofs.ErrorHandlingStacked
 /-!
 # C16 - I/O-error recovery resumes at the right offset: each byte delivered exactly once
 
@@ -275,5 +276,36 @@ example :
   simp only [List.mem_cons, Resp.repl.injEq, List.mem_nil_iff, or_false] at hb
   subst hb
   exact ⟨rfl, rfl, ⟨[], rfl⟩, fun _ => rfl⟩
+
+/-! ### Stacked error handlers -/
+
+/-- **Exactly once through stacked handlers.**  A handler may answer with a buffer that carries an
+error handler of its own (`GResp.repl (stackedOpen m b hin)`, to any depth; plain buffers are
+`GResp.ofResp`).  Such a buffer is opened by the outer reader at the delivered offset `off > 0`; its
+own `errorHandlingChunkReader` starts there and must resume *its* replacements at `off` plus what it
+has returned.  If every source involved holds `D` or a prefix of `D` up to its failure, the stream the
+outer reader stitches is a prefix of `D` from its start offset on: no byte twice, none skipped.
+`ehChunksG` restricted to plain buffers is the model's `ehChunks` (`ehChunksG_flat`). -/
+theorem C16_stacked_exactly_once (D : Bytes) (m : Nat) (base : Buf) (h : List GResp) (off : Nat)
+    (hb : Good D base) (hh : GoodG D h) :
+    evBytes (ehChunksG (openChunks base off m) off h).1 <+: D.drop off :=
+  ehChunksG_prefix D h _ _ off hh (goodOpen_flat D m base hb off)
+
+/-- The building blocks of `GoodG`: plain buffers and stacked buffers over good parts. -/
+theorem C16_stacked_parts (D : Bytes) (m : Nat) (b : Buf) (hb : Good D b) :
+    GoodOpen D (fun off => openChunks b off m) ∧
+    (∀ hin, GoodG D hin → GoodOpen D (stackedOpen m b hin)) :=
+  ⟨goodOpen_flat D m b hb, fun hin hh => goodOpen_stacked D m b hin hb hh⟩
+
+example :
+    -- the base delivers byte 1 and fails; the replacement is a stacked buffer whose source fails at
+    -- once and whose own handler supplies the object again: it is resumed at offset 1 and yields nothing
+    let d : Digest := ⟨1, fun x => x == [1]⟩
+    let base := Buf.chunks d [.data [1], .fail 1]
+    let inner := stackedOpen 65536 (.reader d [.fail 4, .data [1]]) [GResp.ofResp 65536 (.repl (.chunks d [.data [1]]))]
+    (ehChunksG (openChunks base 0 65536) 0 [.repl inner]).1 = [.chunk [1], .onErr (.tag 1)] ∧
+    (ehChunksG (openChunks base 0 65536) 0 [.repl inner]).2 = .eof ∧
+    inner 1 = ([], .eof) ∧ inner 0 = ([[1]], .eof) :=
+  ⟨rfl, rfl, rfl, rfl⟩
 
 end BB.C16
